@@ -47,6 +47,8 @@ func (t *traceWriter) emit(v interface{}) {
 	t.n++
 }
 
+func (t *traceWriter) flush() { t.w.Flush() }
+
 func (t *traceWriter) close() {
 	t.w.Flush()
 	t.f.Close()
